@@ -380,7 +380,7 @@ pub fn generate(workload: Workload, subject: SubjectKind, seed: u64) -> (Config,
         m.p_fail = 15;
     }
     // type shape of the children (drop glue or not), where the harness has the variants
-    if matches!(class, Class::Collection | Class::Join) && r.chance(3, 10) {
+    if r.chance(3, 10) {
         cfg.shape = r.range(1, 3) as u8;
     }
     if class == Class::Join && r.chance(1, 8) {
